@@ -74,7 +74,9 @@ MDS = [{}, {"a": 1}, {"b": "x"}, {}]
 # (the last three: values that compare equal to an earlier one but are other values - repaired
 # defect: QMetaData did not record them)
 QMDS = [{"k1": 1}, {"k2": "v"}, {"k1": 2}, {"k1": 1, "k3": 3}, {"k3": 3}, {"k2": "v"},
-        {"k1": True}, {"k1": 1.0}, {"k3": 3.0, "k1": 1}]
+        {"k1": True}, {"k1": 1.0}, {"k3": 3.0, "k1": 1},
+        # falsy values are values: set later they win over an earlier truthy one (seed C16_i)
+        {"k1": 0}, {"k2": ""}, {"k1": False, "k3": None}, {"k2": {}}, {"k3": []}]
 
 
 class Hist:
